@@ -19,6 +19,8 @@ def write_evidence(pid, tier, seed, wall, coverage, violations, extra_assumption
     # evaluated in a scratch worktree) writes its evidence next to that checkout instead
     target = os.path.realpath(os.environ.get("GEOMETER_REPO", "/repo"))
     evdir = os.path.join(VERIF, "evidence") if target == os.path.realpath("/repo") else target.rstrip("/") + ".evidence"
+    if os.environ.get("VERIF_FAMILY"):  # debugging aid (a subset of the families): not evidence for the property
+        evdir = "/tmp/verif_partial_evidence"
     os.makedirs(evdir, exist_ok=True)
     cov = dict(coverage)
     cov.setdefault(
